@@ -243,6 +243,14 @@ class Driver:
         self.errpath = os.path.join(self.run.dir, "drv-stderr-%d-%d.log" % (os.getpid(), Driver._n))
         import shlex
         extra = "".join("mount --bind %s %s && " % (shlex.quote(a), shlex.quote(b)) for a, b in getattr(self, "binds", ()))
+        if "syslog" in self.build["name"]:
+            # the C library's syslog() connects to /dev/log from inside libc, where no interposer sees it: builds with the syslog
+            # output get a private /dev (a tmpfs copy of the nodes a scenario uses) in which /dev/log leads to the driver's devlog sink
+            D = shlex.quote(os.path.join(self.run.dir, "dev-" + os.path.basename(self.out)))
+            extra += ("mkdir -p %s && mount -t tmpfs -o mode=755 tmpfs %s && cp -a /dev/null /dev/zero /dev/full /dev/random /dev/urandom "
+                      "/dev/tty /dev/ptmx /dev/console /dev/fd /dev/stdin /dev/stdout /dev/stderr %s/ && mkdir %s/pts %s/shm && "
+                      "mount --bind /dev/pts %s/pts && mount --bind /dev/shm %s/shm && ln -s %s %s/log && mount --move %s /dev && "
+                      % (D, D, D, D, D, D, D, shlex.quote(os.path.join(self.out, "devlog.sock")), D, D))
         cmd = ["unshare", "-m", "--propagation", "private", "sh", "-c",
                'mount --bind "$1" "$2" && shift 2 && ' + extra + 'exec "$@"', "sh", self.etc, self.run.etc,
                os.path.join(BUILD, "execdrv")]
